@@ -20,7 +20,15 @@ def class_ids():
     try:
         return {c['name']: i for i, c in enumerate(gen_classes.table(REPO))}
     except Exception:
-        return {}
+        # the translator no longer recognises the class file (reported by the check as a broken tie): keep searching for a failing
+        # input with the class numbering of the last generated table, against which the model is still compiled
+        import re
+        from common import ROOT
+        try:
+            names = re.findall(r'cs_name := "([A-Za-z0-9_]+)"', open(f"{ROOT}/build/Gen/Classes.v").read())
+            return {n: i for i, n in enumerate(names)}
+        except Exception:
+            return {}
 
 
 CLS_ID = class_ids()
